@@ -1,2 +1,22 @@
 import PieModel.Props.C01
-#print axioms PieModel.C01_placeholder
+
+#print axioms PieModel.C01_eval_deterministic
+#print axioms PieModel.C01_faithful_empty
+#print axioms PieModel.C01_setContent_store
+#print axioms PieModel.C01_invariant_newSession
+#print axioms PieModel.C01_faithful_preserved
+#print axioms PieModel.C01_faithful_session
+#print axioms PieModel.C01_check_sound
+#print axioms PieModel.C01_exec_sound
+#print axioms PieModel.C01_session_sound
+#print axioms PieModel.C01_requireAll_sound
+#print axioms PieModel.C01_sources
+#print axioms PieModel.C01_history_faithful
+#print axioms PieModel.C01_clean_build_eval
+#print axioms PieModel.C01_equals_clean_build
+#print axioms PieModel.C01_no_spurious_abort_kinds
+#print axioms PieModel.C01_no_spurious_abort_kinds_all
+#print axioms PieModel.C01_history_agrees
+#print axioms PieModel.tdSound
+#print axioms PieModel.replay_eval
+#print axioms PieModel.tdNHO
